@@ -340,6 +340,7 @@ struct Args
   long maxlen{0};
   long max_size{100};
   double time_budget{0};
+  double shrink_budget{20};
   std::string out, replay_out, replay, probe, hashes_out;
   Params params;
   size_t samples{5};
@@ -356,6 +357,7 @@ inline Args parse_args(int argc, char** argv)
     else if (s == "--seed") a.seed = std::strtoull(next().c_str(), nullptr, 10);
     else if (s == "--maxlen") a.maxlen = std::strtol(next().c_str(), nullptr, 10);
     else if (s == "--time-budget") a.time_budget = std::strtod(next().c_str(), nullptr);
+    else if (s == "--shrink-budget") a.shrink_budget = std::strtod(next().c_str(), nullptr);
     else if (s == "--out") a.out = next();
     else if (s == "--replay-out") a.replay_out = next();
     else if (s == "--hashes-out") a.hashes_out = next();
